@@ -143,6 +143,9 @@ def observables(m, save_mode):
     from gpytorch import settings
     model, lik = m["model"], m["lik"]
     out = {}
+    # train/eval flags of every module are state too (a restored sub-module in the other mode takes another code path)
+    out["modes"] = torch.tensor([float(mod.training) for _, mod in sorted(model.named_modules(), key=lambda kv: kv[0])]
+                                + [float(mod.training) for _, mod in sorted(lik.named_modules(), key=lambda kv: kv[0])], dtype=torch.float64)
     torch.manual_seed(4242)   # state that is drawn on first use (variational initialisation noise) is drawn identically on both sides
     was_training = model.training
     try:
